@@ -340,7 +340,7 @@ class Program:
         if isinstance(node, ast.Call):
             fn = node.func
             # str methods on folded receivers
-            if isinstance(fn, ast.Attribute) and fn.attr in ("lstrip", "rstrip", "strip", "lower", "upper", "split", "keys", "values", "items", "replace"):
+            if isinstance(fn, ast.Attribute) and fn.attr in ("lstrip", "rstrip", "strip", "lower", "upper", "split", "keys", "values", "items", "replace", "startswith", "endswith"):
                 recv = f(fn.value)
                 args = [f(a) for a in node.args]
                 if fn.attr in ("keys", "values", "items"):
@@ -415,6 +415,16 @@ class Program:
             base = f(node.value)
             idx = f(node.slice)
             return base[idx]
+        if isinstance(node, ast.BoolOp):
+            vals = [f(v) for v in node.values]          # constants: evaluation order / short-circuit do not matter
+            res = vals[0]
+            for v in vals[1:]:
+                res = (res and v) if isinstance(node.op, ast.And) else (res or v)
+            return res
+        if isinstance(node, ast.UnaryOp) and isinstance(node.op, ast.Not):
+            return not f(node.operand)
+        if isinstance(node, ast.IfExp):
+            return f(node.body) if f(node.test) else f(node.orelse)
         if isinstance(node, ast.Compare) and len(node.ops) == 1:
             l, r = f(node.left), f(node.comparators[0])
             op = node.ops[0]
